@@ -56,7 +56,11 @@ class Dispatch(object):
                 b'{"command": "add", "id": 5, "properties": {"name": "W1", "cmd": "sleep 1"}}',
                 b'{"command": "add", "id": 5, "properties": {"name": "w9", "cmd": "sleep 1", "options": {"bogus": 2}}}',
                 b'{"command": "kill", "id": 6, "properties": {"name": "w1", "signum": "NOPE"}}',
-                b'{"command": "incr", "id": 6, "properties": {}}']
+                b'{"command": "incr", "id": 6, "properties": {}}',
+                # ids that are falsy but not null are ids all the same (seed C06-7)
+                b'{"command": "numwatchers", "id": 0}', b'{"command": "list", "id": ""}',
+                b'{"command": "nope", "id": false}', b'{"command": "numwatchers", "id": 0.0}',
+                b'{"command": "status", "id": 0, "properties": {"name": "zzz"}}']
         for d in docs:
             yield {'msg': d.decode()}
 
@@ -124,7 +128,8 @@ class Dispatch(object):
             if n != 0:
                 bad.add('post[1]')
         else:
-            if n != 1 or not isinstance(obs['replies'][0], dict) or obs['replies'][0].get('id') != mid:
+            if n != 1 or not isinstance(obs['replies'][0], dict) or obs['replies'][0].get('id') != mid or \
+                    type(obs['replies'][0].get('id')) is not type(mid):
                 bad.add('post[one-reply]')
         # C11
         calls = obs.get('calls', [])
@@ -393,3 +398,186 @@ class ClientCall(object):
         if obs['sent'] != 1:
             bad.add('post[request-carries-the-id]')
         return bad
+
+
+# ---- the reply builders (C06): ok / error and the three senders, on a real Controller with a recording stream ------
+def _sent(c):
+    """the replies on the wire: (cid frame, decoded reply document) per pair of frames"""
+    fr = c.stream.frames
+    out = []
+    for i in range(0, len(fr) - 1, 2):
+        body = fr[i + 1]
+        try:
+            doc = json.loads(body if isinstance(body, str) else body.decode())
+        except Exception:
+            doc = '<undecodable>'
+        out.append((fr[i], doc))
+    return out, len(fr)
+
+
+SENDER_IDS = ['m1', '', 0, 7, None]
+SENDER_CIDS = [b'c1', b'', None]
+
+
+class _Sender(object):
+    def from_model(self, m):
+        return []
+
+    def payloads(self):
+        return [None]
+
+    def enumerate(self):
+        for mid in SENDER_IDS:
+            for cid in SENDER_CIDS:
+                for cast in (False, True):
+                    for p in self.payloads():
+                        yield {'mid': mid, 'cid': None if cid is None else cid.decode(), 'cast': cast, 'payload': p}
+
+    def run(self, inp):
+        c = real_controller()
+        cid = None if inp['cid'] is None else inp['cid'].encode()
+        obs = {}
+        try:
+            self.call(c, inp['mid'], cid, inp['cast'], inp['payload'])
+        except Exception as e:
+            obs['raised'] = type(e).__name__
+        sent, nframes = _sent(c)
+        obs['nframes'] = nframes
+        obs['sent'] = [(None if a is None else a.decode('latin-1'), d) for a, d in sent]
+        return obs
+
+    def expected_status(self, inp):
+        return None
+
+    def check(self, inp, obs):
+        bad = set()
+        silent = inp['cast'] or inp['cid'] is None
+        if 'raised' in obs:
+            bad.add('noescape')
+            return bad
+        if silent:
+            if obs['nframes'] != 0:
+                bad.add('post[0]')
+            return bad
+        ok_ = obs['nframes'] == 2 and len(obs['sent']) == 1 and isinstance(obs['sent'][0][1], dict)
+        if ok_:
+            cidf, doc = obs['sent'][0]
+            ok_ = cidf == inp['cid'] and 'id' in doc and doc['id'] == inp['mid'] and \
+                type(doc['id']) is type(inp['mid'])
+        if not ok_:
+            bad.add('post[1]')
+            return bad
+        bad |= self.status_clauses(inp, obs['sent'][0][1])
+        return bad
+
+    def status_clauses(self, inp, doc):
+        return set()
+
+
+@register('circus.controller:Controller.send_response')
+class SendResponse(_Sender):
+    def payloads(self):
+        return [{'status': 'ok'}, {'status': 'error', 'reason': 'x'}, {'status': 'active', 'id': 'stale'},
+                {'status': 'ok', 'time': 1.0, 'pids': [1, 2]}]
+
+    def call(self, c, mid, cid, cast, payload):
+        c.send_response(mid, cid, b'{}', dict(payload), cast=cast)
+
+    def status_clauses(self, inp, doc):
+        return set() if doc.get('status') == inp['payload']['status'] else set(['post[1]'])
+
+
+@register('circus.controller:Controller.send_error')
+class SendError(_Sender):
+    def payloads(self):
+        return ['unknown', 'boom', '']
+
+    def call(self, c, mid, cid, cast, payload):
+        c.send_error(mid, cid, b'{}', reason=payload, tb='tb', cast=cast, errno=3)
+
+    def status_clauses(self, inp, doc):
+        return set() if doc.get('status') == 'error' else set(['post[1]'])
+
+
+@register('circus.controller:Controller.send_ok')
+class SendOk(_Sender):
+    def payloads(self):
+        return [None, {}, {'pids': [1]}, {'status': 'active'}, {'status': 'stopped', 'x': 1}, {'time': 5}]
+
+    def call(self, c, mid, cid, cast, payload):
+        c.send_ok(mid, cid, b'{}', props=None if payload is None else dict(payload), cast=cast)
+
+    def status_clauses(self, inp, doc):
+        p = inp['payload']
+        bad = set()
+        if p is None or 'status' not in p:
+            if doc.get('status') != 'ok':
+                bad.add('post[2]')
+        elif doc.get('status') != p['status']:
+            bad.add('post[3]')
+        return bad
+
+
+@register('circus.commands.base:ok')
+class OkFn(object):
+    def from_model(self, m):
+        return []
+
+    def enumerate(self):
+        for p in [None, {}, {'pids': [1]}, {'status': 'active'}, {'status': 'stopped', 'x': 1}, {'time': 5},
+                  {'status': 'error'}]:
+            yield {'props': p}
+
+    def run(self, inp):
+        from circus.commands.base import ok
+        try:
+            r = ok(None if inp['props'] is None else dict(inp['props']))
+            return {'result': r if isinstance(r, dict) else repr(r), 'is_dict': isinstance(r, dict)}
+        except Exception as e:
+            return {'raised': type(e).__name__}
+
+    def check(self, inp, obs):
+        if 'raised' in obs:
+            return set(['noescape'])
+        if not obs['is_dict']:
+            return set(['post[0]'])
+        r, p = obs['result'], inp['props']
+        if 'status' not in r:
+            return set(['post[1]'])
+        bad = set()
+        if p is None or 'status' not in p:
+            if r['status'] != 'ok':
+                bad.add('post[2]')
+        elif r['status'] != p['status']:
+            bad.add('post[3]')
+        return bad
+
+
+@register('circus.commands.base:error')
+class ErrorFn(object):
+    def from_model(self, m):
+        return []
+
+    def enumerate(self):
+        for reason in ['', 'boom', 'x' * 50]:
+            for tb in [None, 'tb']:
+                for errno in [0, 3, 5]:
+                    yield {'reason': reason, 'tb': tb, 'errno': errno}
+
+    def run(self, inp):
+        from circus.commands.base import error
+        try:
+            r = error(reason=inp['reason'], tb=inp['tb'], errno=inp['errno'])
+            json.dumps(r)
+            return {'result': r if isinstance(r, dict) else repr(r), 'is_dict': isinstance(r, dict)}
+        except Exception as e:
+            return {'raised': type(e).__name__}
+
+    def check(self, inp, obs):
+        if 'raised' in obs:
+            return set(['noescape'])
+        if not obs['is_dict']:
+            return set(['post[0]'])
+        if 'status' not in obs['result']:
+            return set(['post[1]'])
+        return set() if obs['result']['status'] == 'error' else set(['post[2]'])
